@@ -73,7 +73,7 @@ static long stride(void) { return strcmp(TIER, "thorough") == 0 ? 1 : 37; }
 static long n_num(void) { return 3 * ((256 + 65536) / stride() + 2); }
 struct case_budget chk_budget(const char *tier)
 {
-        struct case_budget b = { 0, strcmp(tier, "thorough") == 0 ? 3000000 : 150000 };
+        struct case_budget b = { 0, strcmp(tier, "thorough") == 0 ? 20000000 : 500000 };
         TIER = tier; b.sweep = n_num() + 64 * 2 * 3;
         return b;
 }
